@@ -616,8 +616,21 @@ def byte_pieces(body):
            any(d[0] == 'call' and mir.method_name(d[2].name) in ('with_capacity', 'new') for d in body.defs().get(l, []))]
     if len(vec) != 1:
         return None
-    # extend(&[u8]) and extend_from_slice(&[u8]) append the same bytes
-    seq = [('extend' if s2[1] == 'extend_from_slice' else s2[1], s2[2], s2[3]) for s2 in builder_sequence(body, vec[0])]
+    # extend(&[u8]) and extend_from_slice(&[u8]) append the same bytes; extend(I.flat_map(f)) appends f(x) for every x of I
+    # in order, like `for x in I { v.extend(f(x)) }`
+    seq = []
+    for s2 in builder_sequence(body, vec[0]):
+        meth, args, depth, cs = s2[1], s2[2], s2[3], s2[4]
+        if meth == 'extend_from_slice':
+            meth = 'extend'
+        if meth == 'extend' and depth == 0 and len(cs.args) == 2:
+            e = peel(body.op_expr(cs.args[1]))
+            if e[0] == 'call' and mir.method_name(e[1]) == 'flat_map' and 'Iterator' in e[1] and len(e[2]) == 2:
+                item = mir.mk_try(('call', '<I as std::iter::Iterator>::next', (e[2][0],), None))
+                r = closure_apply(body.prog, e[2][1], [item])
+                if r is not None:
+                    args, depth = [mir.canon(r)], 1
+        seq.append((meth, args, depth))
     return seq, mir.canon(body.ret_expr()) == mir.canon(body.local_expr(vec[0]))
 
 
